@@ -229,7 +229,12 @@ def fb_rule(chk, db):
         construct = astx.sig(f)
         chk.instance("FB")
         helpers = dict((g["n"], g) for g in db.funcs if g["file"].startswith("_cmath/") and g["n"].endswith("_fallback") and g.get("body"))
-        r = FD.check_helper(f, ident, int_return=ident in ("lrint", "llrint", "lround", "llround"), helpers=helpers)
+        gc = {}
+        for g in db.funcs:
+            if "/gcem/" in g["file"] and g.get("body") is not None:
+                gc.setdefault(g["n"], []).append(g)
+        wide = FD.REPS_WIDE if len(f["params"]) == 1 else None
+        r = FD.check_helper(f, ident, int_return=ident in ("lrint", "llrint", "lround", "llround"), helpers=helpers, gcem=gc, reps=wide)
         chk.obligation("FB", construct, True if r[0] == "ok" else (False if r[0] == "bad" else None), evaluations=r[1] if r[0] == "ok" else 1)
         if r[0] == "bad":
             args, got, want = r[1]
@@ -241,7 +246,87 @@ def fb_rule(chk, db):
     chk.extra["fallback_helpers_evaluated"] = n
 
 
-META_EXTRA = 'FB (library-local constant-evaluation helpers of exactly specified functions, evaluated over a finite floating-point class domain against the closed form); SHIFT (shift counts below the promoted width of the left operand, symbolic type width).'
+def fbg_rule(chk, db):
+    """FBG: a <cmath> function whose run-time path is the compiler builtin of an exactly specified function and whose
+    constant-evaluation path is the vendored constexpr implementation `detail::gcem::Y` agrees with itself only if Y
+    computes that exact function. Y's own body (and the helpers it calls, all inside include/etl/_3rd_party/gcem) is evaluated
+    over the floating-point class domain -- fractions on both sides of zero, ties, signed zeros, values below epsilon and
+    denormals, integers at and above 2^52, values beyond the range of long long, infinities, NaN -- and compared with the
+    closed form. An evaluation that converts an out-of-range value to an integer is not a constant expression."""
+    from ..rules import floatdom as FD
+    import math
+    gc = {}
+    for g in db.funcs:
+        if "/gcem/" in g["file"] and g.get("body") is not None:
+            gc.setdefault(g["n"], []).append(g)
+    specs = dict(FD.SPECS)
+    specs["round"] = (1, lambda x: x if (math.isinf(x) or math.isnan(x)) else math.copysign(
+        float(math.floor(abs(x) + 0.5)) if abs(x) < 2.0 ** 52 else abs(x), x))
+    n = 0
+    seen = set()
+    for f in db.funcs:
+        if not f["file"].startswith("_cmath/") or f.get("body") is None:
+            continue
+        builtins = set()
+        gcalls = set()
+        for x in astx.all_exprs(f, into_lambdas=True):
+            if x.get("k") != "call":
+                continue
+            nm = astx.callee(x)[0] or ""
+            if nm.startswith("__builtin_"):
+                b = nm[len("__builtin_"):]
+                for suf in ("f", "l"):
+                    if b.endswith(suf) and b[:-1] in specs:
+                        b = b[:-1]
+                builtins.add(b)
+            qual = (x["f"].get("qual") or "") + (astx.callee(x)[1] or "")
+            if "gcem" in qual and nm in gc:
+                gcalls.add(nm)
+        for y in sorted(gcalls):
+            cands = [b for b in builtins if b == y and b in specs]
+            if not cands or y in seen:
+                continue
+            seen.add(y)
+            tops = [g for g in gc[y] if "internal" not in g["q"] and len(g["params"]) == specs[y][0]]
+            if not tops:
+                continue
+            n += 1
+            construct = "%s (constant evaluation of %s)" % (tops[0]["q"], astx.sig(f))
+            chk.instance("FBG")
+            bad, unknown, cnt = [], None, 0
+            FD.SPECS_SAVE = None
+            for a in FD.REPS_WIDE:
+                try:
+                    want = specs[y][1](a)
+                except (OverflowError, ValueError):
+                    continue
+                try:
+                    got = FD.call(tops[0], [a], gcem=gc)
+                except FD.NotConstant as u:
+                    got = "not a constant expression (%s)" % u
+                except FD.Unmodelled as u:
+                    unknown = str(u)
+                    break
+                cnt += 1
+                if not FD.same(got, want):
+                    bad.append((a, got, want))
+            if unknown:
+                chk.obligation("FBG", construct, None)
+                chk.unknown_instance("FBG", construct, unknown)
+                continue
+            chk.obligation("FBG", construct, not bad, evaluations=cnt)
+            for a, got, want in bad:
+                cls = ("below-epsilon" if 0 < abs(a) < 1e-10 else "beyond-long-long" if abs(a) >= 2.0 ** 63 else
+                       "negative-fraction" if -1 < a < 0 else "other")
+                chk.violation("FBG", "%s [%s]" % (construct, cls), "constexpr-differs", "%s: in constant evaluation %s(%r) is %s; the run-time "
+                              "path (__builtin_%s) gives %r" % (astx.loc(tops[0]), y, a, got if isinstance(got, str) else repr(got), y, want),
+                              {"where": astx.loc(tops[0]), "arg": repr(a)})
+    chk.extra["gcem_functions_evaluated"] = n
+    if n < 3:
+        chk.analysis_broken("FBG: only %d vendored constexpr implementations are paired with a builtin of the same function (floor 3)" % n)
+
+
+META_EXTRA = 'FB (library-local constant-evaluation helpers of exactly specified functions, evaluated over a finite floating-point class domain against the closed form); FBG (the vendored gcem implementation that constant evaluation uses where the run-time path is a builtin, evaluated from its own source over the same domain widened by tiny, huge and non-finite classes); SHIFT (shift counts below the promoted width of the left operand, symbolic type width).'
 META = (META[0] + " " + META_EXTRA, META[1])
 
 
@@ -368,6 +453,7 @@ def run(chk, tier):
     if n2 < 40:
         chk.analysis_broken("D2: only %d cmath overloads recognised (floor 40)" % n2)
     fb_rule(chk, db)
+    fbg_rule(chk, db)
     from ..rules import shift as _SH
     _SH.check(chk, db, ["_bit/", "_bitset/"], floor=20)      # SHIFT: shift counts stay below the promoted operand width
     chk.assumptions += [
